@@ -49,7 +49,12 @@ def judge(rec):
         if len(worse):
             ibest = int(np.argmin(np.where(fin, f, np.inf)))
             where = 'last_eval' if ibest == len(calls) - 1 else ('first_eval' if ibest == 0 else 'interior_eval')
-            V.append(dict(signature='C04:better_point_lost:%s' % route,
+            # With projections AND a regulariser the stored objective uses h at the point before Dykstra's re-projection (known
+            # finding F34/F21): when the best evaluated point IS the returned one and only soln.obj differs slightly, this is
+            # that defect, not a lost point.
+            reproj = bool(prob.get('proj')) and prob.get('reg') is not None and int(s.xmin_eval_num) == ibest + 1 and \
+                abs(obj - float(f[ibest])) <= 1e-6 * (1.0 + abs(float(f[ibest]))) and len(worse) == 1
+            V.append(dict(signature=('C04:returned_best_point_obj_differs:regulariser_projections' if reproj else 'C04:better_point_lost:%s' % route),
                           what='soln.obj = %r exceeds the objective at %d recorded evaluation(s); best recorded value %r at evaluation %d of %d (%s); '
                                'exit: %s, nruns %s, soln.xmin_eval_num %s' % (obj, len(worse), float(f[ibest]), ibest + 1, len(calls), where, route, s.nruns, s.xmin_eval_num),
                           detail=dict(obj=S.fh(obj), best=S.fh(float(f[ibest])), best_eval=ibest + 1, ncalls=len(calls), where=where, route=route,
